@@ -96,7 +96,7 @@ class C07(Property):
     driver = DRIVER
     partial = ("signal delivery inside C code; what a half-delivered glyph does to a cell (no Term x parser product); the "
                "new API's SGR after a cut frame is the subclass hook's business (claimed only for the old API)")
-    quick_cases = int(os.environ.get("C07_CASES", "8000"))
+    quick_cases = int(os.environ.get("C07_CASES", "6000"))
     thorough_cases = 30000
 
     def gen_constants(self):
@@ -176,6 +176,23 @@ class C07(Property):
                         dd["plan"] = {"k": k, "off": off, "exc": exc}
                         kind = f"{d['api']}-{d['style']}-{'anim' if anim else 'still'}-{log[k]}-{exc}"
                         yield Case("", dd, kind, True)
+            # a BUFFERING output stream (write() buffers, flush() delivers): Ctrl-C / an exception in the flush of a
+            # later frame delivers any prefix of the frame — cut inside an APC/OSC or after colours. (No
+            # `_clear_frame_` string here, so that the buffer is the frame alone and the fault is, seen from the
+            # terminal, the interrupted write of that frame: the model is asked exactly that.)
+            if d["api"] == "new" and anim and not d.get("frame_kinds"):
+                # every flush of the animation after the first frame is complete, except the inner `finally`'s own
+                first_render = log.index("render") if "render" in log else nbody
+                fl = [k for k in range(first_render + 5, nbody - 2) if log[k] == "flush"]
+                if d.get("clear"):
+                    fl = []
+                for k in (fl if big else rng.sample(fl, min(4, len(fl)))):
+                    for exc in ("kbd", "err"):
+                        for off in sorted({2, rng.randrange(0, 60), rng.randrange(0, 4000), -1}):
+                            dd = dict(d)
+                            dd["buffered"] = True
+                            dd["plan"] = {"k": k, "off": off, "exc": exc}
+                            yield Case("", dd, f"new-{d['style']}-anim-bufflush-{exc}", True)
 
     def impl(self, case: Case) -> str:
         d = case.data
@@ -190,9 +207,20 @@ class C07(Property):
         d["_finalized"], d["_seek_ok"], d["_size_ok"] = r.finalized, r.seek_ok, r.size_ok
         fired = c06.INJ.fired
         d["_fired"] = list(fired[::2]) if fired else None
+        d["_box"] = list(r.box)
+        try:
+            d["_items"] = c06.items_of(r)
+        except tk.TokenizeError:
+            d["_items"] = None
+        frame_heads = [s.split("\n")[0] for _, s in r.frames if s]
+        d["_log"] = r.log
+        anim_ = d["animate"] and d["nframes"] > 1
+        d["_fired_in_frame"] = bool(fired and fired[0] == "write" and fired[1] is not None
+                                    and not fired[1].startswith("\r") and any(h and h in fired[1] for h in frame_heads))
         d["_fired_partial_string"] = bool(fired and fired[1] is not None and fired[2] < len(fired[1])
                                           and (ESC + "_" in fired[1] or ESC + "]" in fired[1]))
         d["_log"] = r.log
+        self._cursor_below(d, "", "", anim_, d["_fired"], queue_only=True)
         return res
 
     def oracle(self, case: Case, impl_result: str):
@@ -212,9 +240,18 @@ class C07(Property):
             # … but whatever the frames are, a cut that is not inside a graphics write (HIDE_CURSOR, cursor moves, a
             # flush, a sleep, a write delivered completely) must leave the cursor visible
             cut_in_string = bool(fired) and fired[0] == "write" and d.get("_fired_partial_string", False)
-            if cut_in_string or st in ("str", "strEsc"):
-                vis = True
-            st, pending = "ground", False
+            # … and when the subclass' `_handle_interrupted_draw_` prints ST ST, a KeyboardInterrupt while a frame is
+            # being written / flushed is followed by it: nothing is left open, the cursor is shown again
+            hooked = (bool(fired) and d["plan"]["exc"] == "kbd" and d.get("_fired_in_frame") and d.get("hook") == ctl.ST * 2
+                      and not d.get("clear"))
+            if not hooked:
+                if cut_in_string or st in ("str", "strEsc"):
+                    vis = True
+                st, pending = "ground", False
+        if (d["api"] == "new" and d["style"] == "block" and d.get("hook") == ctl.SGR_DEFAULT and fired
+                and d["plan"]["exc"] == "kbd" and d.get("_fired_in_frame") and not sgr_default):
+            return Failure(f"sgr/{where}/hook", f"the subclass' interrupt hook (CSI m) was not called after a frame was cut "
+                           f"by Ctrl-C: a colour stays in effect; {at}")
         if st in ("str", "strEsc") or (d["api"] == "old" and st != "ground"):
             return Failure(f"parser/{where}/{fired[0] if fired else ''}",
                            f"the terminal is left inside an unterminated control sequence ({st}); {at}")
@@ -236,6 +273,9 @@ class C07(Property):
             return Failure(f"seek/{where}", f"the image's current frame changed; {at}")
         if not d["_size_ok"]:
             return Failure(f"size/{where}", f"the image's size setting changed; {at}")
+        f = self._cursor_below(d, where, at, anim, fired)
+        if f:
+            return f
         if fired:
             exc = d["plan"]["exc"]
             if anim:
@@ -253,6 +293,62 @@ class C07(Property):
                     return Failure(f"swallowed/{where}", f"an exception was swallowed ({d['_outcome']}); {at}")
             elif d["_outcome"] != "raised:" + exc:
                 return Failure(f"not-raised/{where}", f"still image: {exc} not propagated ({d['_outcome']}); {at}")
+        return None
+
+    _cursor_results: dict = {}
+    _cursor_pending: list = []
+
+    def _cursor_result(self, req):
+        """all pending terminal runs in ONE driver call (impl() has queued them; a replay or the search asks singly)"""
+        if req not in self._cursor_results:
+            todo = [r for r in dict.fromkeys(self._cursor_pending + [req]) if r not in self._cursor_results]
+            for r, resp in zip(todo, fw.run_driver(DRIVER, todo)):
+                self._cursor_results[r] = resp
+            self._cursor_pending.clear()
+        return self._cursor_results[req]
+
+    def _cursor_below(self, d, where, at, anim, fired, queue_only=False):
+        """C06's clause "the cursor is … on the line below the padded region" for an animation that was interrupted
+        after its first frame: the code then moves the cursor down by the region's height from wherever the cut left it
+        ("to prevent overlaid output"), so it cannot say *immediately* below — but it must not stay INSIDE the picture.
+        The delivered complete tokens (a cut control sequence has no effect) are run on the Lean terminal."""
+        # NOT a clause of C06 (quantified over uninterrupted draws) nor of C07 (which lists no cursor position): judging it
+        # could raise an alarm on code where both properties hold, so it is a diagnostic only (VERIF_C07_CURSOR_DIAG=1);
+        # a change that only moves the cursor after an interrupt therefore stays a broken tie (no-failing-input-found).
+        if not os.environ.get("VERIF_C07_CURSOR_DIAG"):
+            return None
+        if not (fired and anim and d.get("_items") is not None):
+            return None
+        if fired[0] not in ("write", "flush") or (d["plan"]["exc"] != "kbd" and d["plan"]["k"] % 3):
+            return None  # the cursor bookkeeping does not depend on the exception kind: err faults are sampled
+        if d["api"] == "new" and (d["style"] != "block" or d.get("clear")):
+            return None  # a cut graphics string swallows what follows: the subclass' business (see above)
+        log, k = d["_log"], d["plan"]["k"]
+        if "render" not in log:
+            return None
+        first_render = log.index("render")
+        nbody = len(log) - cleanup_actions(d)
+        if d["api"] == "new":
+            # first_frame_written is set after: render, write f0, flush, write home, flush; the inner `finally`'s own
+            # cursor_down write + flush are the last two actions before the clean-up
+            if not (first_render + 5 <= k < nbody - 2):
+                return None
+        elif k < first_render:
+            return None
+        W, H = d["W"], d["H"]
+        bw, bh = d["_box"]
+        if bw > W or bh > H:
+            return None
+        items = [w for w in d["_items"] if not w.startswith("cut:") and not w.startswith("?")]
+        req = f"term.run {W} {H} {c06.lean_kind(d)} 0 0 0 0 " + " ".join([str(len(items))] + items)
+        if queue_only:
+            self._cursor_pending.append(req)
+            return None
+        st = c06.parse_state(self._cursor_result(req))
+        if st["row"] < bh:
+            return Failure(f"cursor-inside/{where}/{fired[0]}",
+                           f"after the interrupted animation the cursor is left on row {st['row']} INSIDE the padded region "
+                           f"(rows 0–{bh - 1}): what is printed next overwrites the picture; {at}")
         return None
 
     def extra_checks(self, rng, tier, ev):
